@@ -13,7 +13,14 @@ type specFunc struct {
 }
 
 // Specs are the spec functions available to contracts, written in SMT-LIB in /verif/spec/*.smt2.
+type optSpec struct {
+	file string
+	text string
+	syms []string
+}
+
 type Specs struct {
+	opt    []optSpec // spec/opt/*.smt2: included only where one of their symbols is used
 	text   string
 	funcs  map[string]specFunc
 	consts map[string]string
@@ -124,6 +131,13 @@ func loadSpecs(dir string, only []string) (*Specs, error) {
 	sp := &Specs{funcs: map[string]specFunc{}, consts: map[string]string{}}
 	files, _ := filepath.Glob(filepath.Join(dir, "*.smt2"))
 	sort.Strings(files)
+	optFiles, _ := filepath.Glob(filepath.Join(dir, "opt", "*.smt2"))
+	sort.Strings(optFiles)
+	isOpt := map[string]bool{}
+	for _, f := range optFiles {
+		isOpt[f] = true
+	}
+	files = append(files, optFiles...)
 	for _, f := range files {
 		if len(only) > 0 {
 			ok := false
@@ -141,8 +155,19 @@ func loadSpecs(dir string, only []string) (*Specs, error) {
 			return nil, err
 		}
 		sp.files = append(sp.files, f)
-		sp.text += "; ---- " + filepath.Base(f) + "\n" + string(b) + "\n"
+		var cur *optSpec
+		if isOpt[f] {
+			sp.opt = append(sp.opt, optSpec{file: f, text: "; ---- opt/" + filepath.Base(f) + "\n" + string(b) + "\n"})
+			cur = &sp.opt[len(sp.opt)-1]
+		} else {
+			sp.text += "; ---- " + filepath.Base(f) + "\n" + string(b) + "\n"
+		}
 		for _, sx := range sexprs(string(b)) {
+			if cur != nil {
+				if it := sitems(sx); len(it) >= 2 && (it[0] == "define-fun" || it[0] == "define-fun-rec" || it[0] == "declare-fun") {
+					cur.syms = append(cur.syms, it[1])
+				}
+			}
 			it := sitems(sx)
 			if len(it) < 4 {
 				continue
